@@ -399,7 +399,32 @@ func runC11(c *Ctx) {
 				always[fn] = true
 			}
 		}
-		res := follow(followSpec{Fn: h, Start: []*ssa.BasicBlock{h.Blocks[0]}, Closes: func(in ssa.Instruction) bool {
+		// no new object exists on the failure edge of the creating call (e.g. CREATE answering with an
+		// object that was already there): the obligation does not extend past that edge
+		noNew := map[*ssa.BasicBlock]bool{}
+		isCreator := func(ci ssa.CallInstruction) bool {
+			bc := asBackendCall(ci)
+			return bc != nil && !bc.OnFile && (bc.Method == "Create" || bc.Method == "OpenFile" || bc.Method == "Mkdir" || bc.Method == "MkdirAll" || bc.Method == "Symlink")
+		}
+		for _, call := range calls(h) {
+			creates := isCreator(call)
+			if f := staticCallee(call); !creates && f != nil && f.Pkg != nil && f.Pkg.Pkg.Path() == absnfsPath {
+				for g := range p.reachableFrom([]*ssa.Function{f}) {
+					for _, c2 := range calls(g) {
+						if isCreator(c2) {
+							creates = true
+						}
+					}
+				}
+			}
+			if !creates {
+				continue
+			}
+			if _, fail, ok := errSuccessEdge(call); ok && fail != nil {
+				noNew[fail] = true
+			}
+		}
+		res := follow(followSpec{Fn: h, Start: []*ssa.BasicBlock{h.Blocks[0]}, StopEdge: func(from, to *ssa.BasicBlock) bool { return noNew[to] }, Closes: func(in ssa.Instruction) bool {
 			if isChown(in) {
 				return true
 			}
